@@ -20,6 +20,17 @@ use serde_json::{json, Value};
 
 pub const DEFAULT_SEED: u64 = 20_261_002;
 
+static DEEP: AtomicBool = AtomicBool::new(false);
+
+/// thorough tier: generators use their deeper bounds (more transmitters, longer feeds, more events)
+pub fn set_deep(on: bool) {
+    DEEP.store(on, Ordering::Relaxed);
+}
+
+pub fn deep() -> bool {
+    DEEP.load(Ordering::Relaxed)
+}
+
 pub type Counts = BTreeMap<&'static str, u64>;
 
 pub fn bump(c: &mut Counts, k: &'static str) {
